@@ -465,7 +465,9 @@ def build_recipes():
             else:
                 data = _own(c, [c.sample(k), c.sample(k), c.sample(k)])
                 ch = 'FL1-H'
-            return (fplot.violin_dose_response, [data], dict(channel=ch, positions=_own(c, [0.0, 10.0, 100.0]), xscale='log', yscale='log', num_bins=20))
+            ctl = dict(min_data=_own(c, np.array([1.0, 2.0, 3.0])), max_data=_own(c, np.array([80.0, 90.0, 70.0]))) if k == 'array' else \
+                dict(min_data=c.sample(k), max_data=c.sample(k))
+            return (fplot.violin_dose_response, [data], dict(channel=ch, positions=_own(c, [0.0, 10.0, 100.0]), xscale='log', yscale='log', num_bins=20, **ctl))
         add('plot.violin_dose_response', rec_vd0)
     # ---- fixed recipes with stable names, used by the committed regression cases (not drawn by the strategy)
     add('__reg__gate.density2d_bins_list', lambda c: (gate.density2d, [c.sample('int')],
@@ -745,6 +747,8 @@ def run_job(job):
     obs = Obs()
     for nm, mk, view in (('view()', lambda d: d.view(), True), ('slice rows', lambda d: d[3:20], True),
                          ('slice channels', lambda d: d[:, ['FL1-H', 'FSC-H']], True), ('slice int column', lambda d: d[:, 2], True),
+                         ('everything [:, :]', lambda d: d[:, :], True), ('everything [:, ...]', lambda d: d[:, ...], True),
+                         ('everything [:]', lambda d: d[:], True),
                          ('mask rows', lambda d: d[np.arange(d.shape[0]) % 2 == 0], False), ('copy()', lambda d: d.copy(), False),
                          ('astype(float)', lambda d: d.astype(float), False)):
         for k in ('int', 'rfi', 'float'):
